@@ -80,9 +80,20 @@ func RemoveFree(sc am.Schema, a Set) error {
 }
 
 // P3: every state newly active in a has each Add state active unless that
-// state is Removed by some state in a, misses a Require in a, or (Remove
-// mutations) was called for removal.
-func AddHonoured(sc am.Schema, before, a Set, called Set, mutType string) error {
+// state is excluded by a Remove relation, misses a Require in a, or (Remove
+// mutations) was called for removal. "Excluded by a Remove relation" is read
+// permissively: the remover may be any state that took part in the resolution
+// (active before, called, or in their Add-closure), even if it is itself
+// inactive afterwards; lenient reports that this wider reading was needed.
+func AddHonoured(sc am.Schema, before, a Set, called Set, mutType string) (lenient bool, err error) {
+	seed := Set{}
+	for s := range called {
+		seed[s] = true
+	}
+	for s := range before {
+		seed[s] = true
+	}
+	participants := AddClosure(sc, seed)
 	for s := range a {
 		if before[s] {
 			continue
@@ -94,8 +105,7 @@ func AddHonoured(sc am.Schema, before, a Set, called Set, mutType string) error 
 			if mutType == "remove" && called[add] {
 				continue
 			}
-			// excluded by a Remove relation of an active state?
-			excluded := false
+			excluded, excludedLenient := false, false
 			for x := range a {
 				for _, r := range sc[x].Remove {
 					if r == add {
@@ -103,10 +113,18 @@ func AddHonoured(sc am.Schema, before, a Set, called Set, mutType string) error 
 					}
 				}
 			}
+			if !excluded {
+				for x := range participants {
+					for _, r := range sc[x].Remove {
+						if r == add {
+							excludedLenient = true
+						}
+					}
+				}
+			}
 			if excluded {
 				continue
 			}
-			// misses a Require?
 			miss := false
 			for _, r := range sc[add].Require {
 				if !a[r] {
@@ -116,11 +134,15 @@ func AddHonoured(sc am.Schema, before, a Set, called Set, mutType string) error 
 			if miss {
 				continue
 			}
-			return fmt.Errorf("P3 add: %s activated, its Add state %s is inactive with no Remove/Require reason (before %v after %v)",
+			if excludedLenient {
+				lenient = true
+				continue
+			}
+			return lenient, fmt.Errorf("P3 add: %s activated, its Add state %s is inactive with no Remove/Require reason (before %v after %v)",
 				s, add, before.List(), a.List())
 		}
 	}
-	return nil
+	return lenient, nil
 }
 
 // AddClosure is the transitive closure of from under Add relations.
